@@ -243,6 +243,55 @@ func checkC13(ctx *Ctx, r *Report, tier string) {
 	} else {
 		r.undecided("S9", "SaveSTL", 0, "not found")
 	}
+	// S13: the binary loader returns one triangle per record it reads, in order: the instruction
+	// that puts the triangle into the result (a store at the record's index, or an append) is
+	// reached in every iteration that does not return an error. A filter ("skip collapsed
+	// facets") returns fewer triangles than the file holds and shifts every later index.
+	if load := ctx.ssaFunc("render", "loadSTLBinary"); load != nil {
+		n := 0
+		allInstrs(load, func(b *ssa.BasicBlock, ins ssa.Instruction) {
+			if innermostLoop(load, b) == nil {
+				return
+			}
+			isTri := func(t types.Type) bool { return strings.HasSuffix(t.String(), "sdf.Triangle3") }
+			keep := false
+			switch x := ins.(type) {
+			case *ssa.Store:
+				if ia, ok := x.Addr.(*ssa.IndexAddr); ok {
+					if sl, ok := ia.X.Type().Underlying().(*types.Slice); ok && isTri(sl.Elem()) {
+						keep = true
+					}
+				}
+			case *ssa.Call:
+				if bi, ok := x.Call.Value.(*ssa.Builtin); ok && bi.Name() == "append" && len(x.Call.Args) > 0 {
+					if sl, ok := x.Call.Args[0].Type().Underlying().(*types.Slice); ok && isTri(sl.Elem()) {
+						keep = true
+					}
+				}
+			}
+			if !keep {
+				return
+			}
+			n++
+			// leaving the loop early is the loader's error path (a short read): only going on to
+			// the next record without keeping this one is a loss
+			ok2, why := true, ""
+			if ld := innermostLoop(load, b); ld != nil {
+				for _, p := range ld.header.Preds {
+					if ld.in[p] && isBackEdge(p, ld.header) && !b.Dominates(p) {
+						ok2, why = false, "an iteration can go on to the next record without passing here (continue)"
+					}
+				}
+			}
+			r.check("S13", fmt.Sprintf("loadSTLBinary|record#%d-kept-in-every-iteration", n), ins.Pos(), ok2, "every record read becomes one element of the result, unconditionally; "+why)
+		})
+		if n == 0 {
+			r.undecided("S13", "loadSTLBinary", load.Pos(), "no triangle stored or appended inside the record loop")
+		}
+		r.floor("S13", 1)
+	} else {
+		r.undecided("S13", "loadSTLBinary", 0, "not found")
+	}
 
 	ruleLoaderStartsAtByteZero(ctx, r)
 	ruleTextLoaderSplitsOnAnyWhitespace(ctx, r)
